@@ -29,6 +29,8 @@ VARIABLES
   ended,      \* tokens of sessions that have ended in this incarnation
   stale,      \* named slack: datapath entries a listed known finding is allowed to leave behind
   relabel,    \* named slack: sessions that had an accepted modification creating or updating QERs (F-QER-RELABEL)
+  ddnLast,    \* C13: [UP SEID token -> time (ms) of the last forwarded downlink data report]
+  srrSeqs,    \* C13: sequence numbers of the Session Report Requests seen so far, per peer
   tainted,    \* C01: UP SEID tokens whose rules are unknown after a mutated message (their table entries are not judged)
   used,       \* ids of the listed known findings whose slack was actually needed so far
   tables,     \* observed BESS tables after the last consumed line
@@ -36,7 +38,7 @@ VARIABLES
   snap,       \* guarded state snapshot taken with the last consumed line ([has |-> FALSE] if none)
   chk,        \* verdicts of the per-step checks of the last consumed line (record of booleans)
   last        \* summary of the last consumed line: [ev, kind, accepted, u]
-vars == <<l, alive, cfg, assoc, pfd, sess, ipHeld, teidHeld, ended, stale, relabel, tainted, used, tables, cmds, snap, chk, last>>
+vars == <<l, alive, cfg, assoc, pfd, sess, ipHeld, teidHeld, ended, stale, relabel, ddnLast, srrSeqs, tainted, used, tables, cmds, snap, chk, last>>
 
 Dev(name) == name \in KnownDevs
 
@@ -68,7 +70,7 @@ Accepted(e) == Answered(e) /\ Main(e).cause = 1
 \* all checks a step can make; TRUE unless the step sets them
 ChkOK == [one |-> TRUE, type |-> TRUE, seq |-> TRUE, hdrSeid |-> TRUE, cause |-> TRUE, shape |-> TRUE, created |-> TRUE,
           mustReject |-> TRUE, writesNothing |-> TRUE, seidLegal |-> TRUE, teidLegal |-> TRUE, ipLegal |-> TRUE,
-          ipRefusal |-> TRUE, teidProgrammed |-> TRUE, addressed |-> TRUE, mustAccept |-> TRUE, startEmpty |-> TRUE, envelope |-> TRUE, markers |-> TRUE,
+          ipRefusal |-> TRUE, teidProgrammed |-> TRUE, addressed |-> TRUE, mustAccept |-> TRUE, srrDue |-> TRUE, srrNone |-> TRUE, srrRate |-> TRUE, srrShape |-> TRUE, startEmpty |-> TRUE, envelope |-> TRUE, markers |-> TRUE,
           pfdKept |-> TRUE, hbTs |-> TRUE]
 
 \* C02 checks common to every request kind
@@ -114,7 +116,7 @@ UnknownSess(p, u) == u \notin DOMAIN sess \/ sess[u].peer # p
 (* steps *)
 Init ==
   /\ l = 1 /\ alive = FALSE /\ cfg = [dp |-> "none"] /\ assoc = EmptyFn /\ pfd = EmptyFn /\ sess = EmptyFn
-  /\ ipHeld = EmptyFn /\ teidHeld = EmptyFn /\ ended = {} /\ stale = {} /\ relabel = {} /\ tainted = {} /\ used = {}
+  /\ ipHeld = EmptyFn /\ teidHeld = EmptyFn /\ ended = {} /\ stale = {} /\ relabel = {} /\ ddnLast = EmptyFn /\ srrSeqs = EmptyFn /\ tainted = {} /\ used = {}
   /\ tables = EmptyTables /\ cmds = 0 /\ snap = NoSnap
   /\ chk = ChkOK /\ last = [ev |-> "init", kind |-> "-", accepted |-> FALSE, u |-> "-"]
   /\ InitHw /\ TLCSet(2, {})
@@ -127,7 +129,7 @@ StartEv ==
   /\ e.ev = "start"
   /\ alive' = TRUE /\ cfg' = e.cfg
   /\ assoc' = EmptyFn /\ pfd' = EmptyFn /\ sess' = EmptyFn /\ ipHeld' = EmptyFn /\ teidHeld' = EmptyFn
-  /\ ended' = {} /\ stale' = {} /\ relabel' = {}
+  /\ ended' = {} /\ stale' = {} /\ relabel' = {} /\ ddnLast' = EmptyFn /\ srrSeqs' = EmptyFn
   /\ tables' = ToTables(e.dp) /\ cmds' = e.cmds /\ snap' = SnapOf(e)
   /\ chk' = [ChkOK EXCEPT !.startEmpty = (ToTables(e.dp) = EmptyTables)]
   /\ last' = [ev |-> "start", kind |-> "-", accepted |-> FALSE, u |-> "-"]
@@ -339,9 +341,20 @@ DelEv ==
 \* Requests), e.cause = the cause the peer answered with (0 = no answer).  An answer "session context not found"
 \* ends the session (C05).
 CauseCtxNotFound == 65
+DdnInterval == IF "ddnMs" \in DOMAIN cfg THEN cfg.ddnMs ELSE 20000
+\* the session's downlink PDRs and whether its downlink forwarding rule asks for notification (NOCP bit of the FAR)
+CorePdrs(s) == {id \in DOMAIN s.pdrs : s.pdrs[id].src = "core"}
+Notifying(s) == \E id \in CorePdrs(s) : s.pdrs[id].far \in DOMAIN s.fars /\ HasBit(s.fars[s.pdrs[id].far].action, ActNOCP)
+AllNotifying(s) == CorePdrs(s) # {} /\ \A id \in CorePdrs(s) : s.pdrs[id].far \in DOMAIN s.fars /\ HasBit(s.fars[s.pdrs[id].far].action, ActNOCP)
 ReportEv ==
-  LET e == Trace[l]  u == e.u
-      ends == e.cause = CauseCtxNotFound /\ Len(e.srr) >= 1 /\ u \in DOMAIN sess
+  LET e == Trace[l]  u == e.u  p == e.peer
+      known == u \in DOMAIN sess /\ sess[u].peer = p
+      s == sess[u]
+      forwarded == Len(e.srr) >= 1 /\ e.srr[1].type = "SessionReportRequest"
+      since == IF u \in DOMAIN ddnLast THEN e.t - ddnLast[u] ELSE 0
+      first == u \notin DOMAIN ddnLast
+      ends == e.cause = CauseCtxNotFound /\ forwarded /\ known
+      seqsOfP == IF p \in DOMAIN srrSeqs THEN srrSeqs[p] ELSE {}
   IN
   /\ e.ev = "report"
   /\ IF ends
@@ -350,9 +363,24 @@ ReportEv ==
           /\ stale' = stale \cup RelabelResidue({u}, ToTables(e.dp))
           /\ relabel' = relabel \ {u}
      ELSE UNCHANGED <<sess, ipHeld, teidHeld, ended, stale, relabel>>
+  /\ ddnLast' = IF forwarded THEN Override(ddnLast, [x \in {u} |-> e.t]) ELSE ddnLast
+  /\ srrSeqs' = IF forwarded THEN Override(srrSeqs, [x \in {p} |-> seqsOfP \cup {e.srr[1].seq}]) ELSE srrSeqs
   /\ UNCHANGED <<alive, cfg, assoc, pfd>>
   /\ Obs(e)
-  /\ chk' = ChkOK
+  /\ chk' = [ChkOK EXCEPT
+       \* due: the session exists, every downlink rule asks for notification, and it is the first report or the interval
+       \* has clearly passed (>= 1.5 x) since the last forwarded one
+       !.srrDue = ((known /\ AllNotifying(s) /\ (first \/ 2 * since >= 3 * DdnInterval)) => forwarded),
+       \* none for unknown sessions and for sessions whose downlink rule does not ask for notification
+       !.srrNone = ((~known \/ ~Notifying(s)) => Len(e.srr) = 0),
+       \* at most one notification per session and interval: never two for one report, none clearly inside (<= 0.5 x)
+       !.srrRate = (Len(e.srr) <= 1 /\ ((~first /\ 2 * since <= DdnInterval) => Len(e.srr) = 0)),
+       \* addressed with the control plane's SEID, a fresh sequence number, a Downlink Data Report naming a downlink PDR
+       !.srrShape = (forwarded /\ known =>
+                       /\ e.srr[1].hasSeid /\ e.srr[1].seid = s.cp
+                       /\ e.srr[1].seq \notin seqsOfP
+                       /\ e.srr[1].hasDldr /\ e.srr[1].dldr \in CorePdrs(s)
+                       /\ e.srr[1].report % 2 = 1)]
   /\ last' = [ev |-> "report", kind |-> "-", accepted |-> ends, u |-> u]
   /\ Advance
 
@@ -417,9 +445,11 @@ DiedEv ==
   /\ Advance
 
 NotInject == UNCHANGED tainted
+NotReport == UNCHANGED <<ddnLast, srrSeqs>>
 Next == /\ l <= Len(Trace)
-        /\ \/ InjectEv \/ CleanupEv \/ DiedEv
-           \/ NotInject /\ (EndEv \/ StartEv \/ KillEv \/ HbEv \/ AssocEv \/ ReleaseEv \/ LostEv \/ ReportEv \/ PfdEv \/ EstabEv \/ ModEv \/ DelEv \/ InjectRespEv)
+        /\ \/ NotReport /\ (InjectEv \/ CleanupEv \/ DiedEv)
+           \/ NotInject /\ (ReportEv \/ StartEv)
+           \/ NotInject /\ NotReport /\ (EndEv \/ KillEv \/ HbEv \/ AssocEv \/ ReleaseEv \/ LostEv \/ PfdEv \/ EstabEv \/ ModEv \/ DelEv \/ InjectRespEv)
         /\ used' = used \cup UsedNow \cup (IF Trace[l].ev = "died" THEN {"crash:" \o Trace[l].site} ELSE {})      \* the state BEFORE this step (every trace ends with an "end" line)
         /\ TLCSet(2, used')
 Spec == Init /\ [][Next]_vars
@@ -501,6 +531,12 @@ C09_SessionQerSound ==
              /\ QerKeysOK(tables.appQer, tables.sessQer, u, sess[u], sq)
              /\ SoundSessQer(sess[u], sq)
        \/ u \in Relaxed
+
+\* C13
+C13_ReportForwardedWhenDue == chk.srrDue
+C13_NoneForUnknownOrSilentSessions == chk.srrNone
+C13_AtMostOncePerInterval == chk.srrRate
+C13_ReportRequestShape == chk.srrShape
 
 \* C14
 C14_EndMarkersToOldTunnelOnce == chk.markers
